@@ -546,3 +546,8 @@ pub fn ref_remove(ad: &Adapter, inst: &RefInstance, tour: &[NodeIdx], is_dummy: 
 pub fn non_depots(ad: &Adapter, ns: &[NodeIdx]) -> Vec<NodeIdx> {
     ns.iter().copied().filter(|n| !ad.nw.node(*n).is_depot()).collect()
 }
+
+/// consecutive nodes pairwise connectable by the reference rule
+pub fn is_path(ad: &Adapter, inst: &RefInstance, ns: &[NodeIdx]) -> bool {
+    ns.windows(2).all(|w| reach(ad, inst, w[0], w[1]))
+}
